@@ -511,7 +511,11 @@ pub fn run(p: &Params) -> Report {
     let mut rep = Report::new("C02");
     if let Some(r) = &p.replay {
         let seed: u64 = r["replay"]["scenario_seed"].as_str().unwrap().parse().unwrap();
-        scenario(seed, false, 40, &mut rep);
+        if r["replay"]["kind"] == "forged" {
+            scenario_forged(seed, &mut rep);
+        } else {
+            scenario(seed, false, 40, &mut rep);
+        }
         return rep;
     }
     // sampled mutations
@@ -519,6 +523,11 @@ pub fn run(p: &Params) -> Report {
     for i in 0..n {
         let seed = p.shard_seed(0x02_0000 + i);
         crate::util::guarded(&mut rep, seed, |rep| scenario(seed, false, 24, rep));
+    }
+    let f = p.budget(1_600, 60_000);
+    for i in 0..f {
+        let seed = p.shard_seed(0xF2_0000 + i);
+        crate::util::guarded(&mut rep, seed, |rep| scenario_forged(seed, rep));
     }
     // every single bit of a few datagrams per shard
     let m = p.budget(48, 960);
@@ -528,4 +537,90 @@ pub fn run(p: &Params) -> Report {
     }
     rep.extra.insert("exhaustive_subspaces".into(), json!(["every single-bit flip of the datagrams selected for the exhaustive pass (one datagram kind and session state per scenario)"]));
     rep
+}
+
+/// A message inside a handshake that was not made with P's key must never be delivered as P's:
+/// the victim knows P's record; a third party M claims P's id, signs with its own key and
+/// attaches its own record (seq above / equal / below the known one, or none).
+pub fn scenario_forged(seed: u64, rep: &mut Report) {
+    use crate::peer::peersim::{build_enr, handshake_packet, random_packet, signing_key, EphKey, HandshakeSpec, SignedData, Signer};
+    let rt = runtime(seed);
+    rt.block_on(async {
+        let mut rng = Rng::new(seed ^ 0xF02);
+        let rig = WireRig::start(&mut rng, RigConfig::default()).await;
+        let pa = v4(10, 0, 2, 2, 9000);
+        let p = PeerSim::new(&mut rng, pa, EnrAddr::Socket(pa), 5);
+        let vid = rig.victim_id();
+        let vpub = rig.victim.public();
+        let m_sk = signing_key(&mut rng);
+        let m_addr = v4(10, 0, 66, 6, 6666);
+        let variant = rng.below(4);
+        let record = match variant {
+            0 => Some(build_enr(&m_sk, 45, EnrAddr::Socket(m_addr), None)),
+            1 => Some(build_enr(&m_sk, 5, EnrAddr::Socket(m_addr), None)),
+            2 => Some(build_enr(&m_sk, 1, EnrAddr::Socket(m_addr), None)),
+            _ => None,
+        };
+        let (d1, n1) = random_packet(&mut rng, &p.id(), &vid);
+        rig.inject(m_addr, d1);
+        rig.settle().await;
+        // the application knows P's record
+        for e in rig.take_events() {
+            if let HandlerOut::WhoAreYou(w) = e.v {
+                rig.submit(HandlerIn::WhoAreYou(w, Some(p.ident.enr.clone())));
+            }
+        }
+        rig.settle().await;
+        let challenge = rig.take_sent().iter().find_map(|s| match codec_ref::decode(&p.id(), &s.v.1) {
+            Ok(d) if matches!(d.kind, RefKind::WhoAreYou { .. }) && d.nonce == n1 && s.v.0 == m_addr => Some(d.aad),
+            _ => None,
+        });
+        rep.evaluations += 1;
+        let Some(cd) = challenge else {
+            rep.count("forged_no_challenge");
+            return;
+        };
+        let ping = RefMessage::Ping { id: vec![0x66, 0x01], enr_seq: 1 };
+        let spec = HandshakeSpec {
+            claimed_id: p.id(),
+            signer: Signer::Key(m_sk.clone()),
+            signed: SignedData::Correct,
+            eph: EphKey::Fresh,
+            record: record.as_ref().map(crate::peer::rlp_ref::encode_record),
+            dst: vid,
+            dst_pub: &vpub,
+            challenge_data: &cd,
+            plaintext: &ping.encode(),
+        };
+        let mut r2 = rng.fork(3);
+        let hs = handshake_packet(&mut r2, &spec);
+        rig.inject(m_addr, hs.datagram.clone());
+        rig.settle().await;
+        rep.count("forged_handshakes_injected");
+        let mut delivered = Vec::new();
+        for e in rig.take_events() {
+            match e.v {
+                HandlerOut::Request(na, r) if na.node_id.raw() == p.id() => delivered.push(format!("Request from {}@{} id {}", hx(&na.node_id.raw()[..4]), na.socket_addr, hx(&r.id.0))),
+                HandlerOut::Response(na, r) if na.node_id.raw() == p.id() => delivered.push(format!("Response from {}@{} id {}", hx(&na.node_id.raw()[..4]), na.socket_addr, hx(&r.id.0))),
+                _ => {}
+            }
+        }
+        // and a follow-up message under the forged keys
+        if let Some(k) = &hs.keys {
+            let (b, _) = crate::peer::peersim::message_packet(&mut rng, &p.id(), &vid, &k.send, &RefMessage::Ping { id: vec![0x66, 0x02], enr_seq: 1 }.encode());
+            rig.inject(m_addr, b);
+            rig.settle().await;
+            for e in rig.take_events() {
+                if let HandlerOut::Request(na, r) = e.v {
+                    if na.node_id.raw() == p.id() {
+                        delivered.push(format!("Request from {}@{} id {}", hx(&na.node_id.raw()[..4]), na.socket_addr, hx(&r.id.0)));
+                    }
+                }
+            }
+        }
+        rep.fingerprint(&("forged", variant));
+        if !delivered.is_empty() {
+            rep.violation("C02:forged-message-delivered", format!("a message that P never encrypted was delivered as coming from P: {delivered:?}"), json!({"scenario_seed": seed.to_string(), "kind": "forged", "attached_record": variant, "handshake": hx(&hs.datagram)}));
+        }
+    });
 }
